@@ -8,6 +8,7 @@ COQ_MODULE = "Prop_C04"
 THEOREMS = ['C04_every_history', 'C04_leaves_get_ptrs', 'C04_lock_all_or_wait', 'C04_try_all_or_nothing', 'C04_scoped_call', "C04_every_schedule_guard_holds_exactly"]
 CASE_MODULES = ["Pf_Hist", "Pf_Hist4", "Monitors", "Conc", "BMonitors"]
 CHECK_WITHOUT_PROOF = True
+SHRINK_GUARD = 0      # which of the booleans evaluated with the verdict certifies the theorem's hypotheses
 TRUSTED = common.TRUSTED_COMMON
 ASSUMPTIONS = common.ASSUME_COMMON
 RULE = 'random API histories (1-3 threads, 4-14 calls, API-call-atomic) over a random universe of single locks, poisonable wrappers and collections of every kind / container / nesting depth <= 2 sharing leaves, with random holds of other threads present from the start; vocabulary: lock/try/scoped/scoped-try in both modes against pre-held members; observation = hold table, raw operations and closure markers per call; non-trivial = a refusal, a closure run or a blocked call; distinct = scenario text; plus interleaved (Level B) programs of 2-4 threads at raw-operation granularity (as for C01 / C09, half of them with a retrying collection under contention), judged by the replaying monitor of BMonitors.v (holds per thread at every call return)'
